@@ -9,7 +9,9 @@
 // cannot mask history dependence.
 //
 //	rw/…       RollingWindow on the fake clock (pass-through mode), in-process BFS, one process per config
-//	cache/…    collection.Cache in vsched sequential-driver mode (RunSeq/Quiesce/Advance), PBFS
+//	cache/…    collection.Cache in vsched sequential-driver mode (RunSeq/Quiesce/Advance), PBFS;
+//	           limit=0 = built without WithLimit (never evicts; keys=4 variant: more keys than any
+//	           limit), …/stat = built with WithName, statistics lines (name, Cache.size()) judged
 //	safemap/…  SafeMap; "scaled" = this binary (copyThreshold/maxDeletion overridden to 4/2 by the
 //	           rewriter), "real" = a second binary built at run time from the same sources with the
 //	           original safemap.go (constants 1000/10000), driven with macro operations
@@ -113,6 +115,20 @@ func jobNames(thorough bool) (light, heavy []string) {
 	for _, k := range []string{"int", "int64", "uint", "uint64", "string", "unmanaged"} {
 		light = append(light, "set/"+k)
 	}
+	// heavy searches run one after the other, each with an equal share of what is left of the soft
+	// time box: the small ones go first, what they do not use flows to the large ones.
+	// statistics variant (WithName + the 1-minute statistics ticker inside the histories, see cache.go)
+	if thorough {
+		for _, limit := range []int{0, 1, 2, 3} {
+			for _, j := range []string{"lo", "hi"} {
+				heavy = append(heavy, fmt.Sprintf("cache/limit=%d/jit=%s/stat", limit, j))
+			}
+		}
+	} else {
+		heavy = append(heavy, "cache/limit=0/jit=lo/stat", "cache/limit=2/jit=hi/stat")
+	}
+	// a cache built without WithLimit driven with more keys than any limit used elsewhere
+	heavy = append(heavy, fmt.Sprintf("cache/limit=0/jit=hi/keys=%d", unlimitedKeys))
 	jits := []string{"lo", "hi"}
 	if thorough {
 		jits = []string{"lo", "hi", "mid", "alt"}
@@ -430,7 +446,7 @@ func main() {
 	r.SetRule("explicit-state BFS over operation histories of the real RollingWindow (fake clock), collection.Cache (vsched sequential-driver mode, virtual wheel ticks, pinned jitter), SafeMap (constants scaled to 4/2 by the rewriter AND the original 1000/10000 in a second binary driven by Churn/Fill macro operations), Queue, Ring and Set; one search per type and configuration (see scenarios); a state is distinct by full white-box dump ⊕ reference-model state; it counts as non-trivial when its history contains at least one mutating operation; every transition re-executes the real code from a fresh instance and is followed by a read-only observation of the whole public API compared with a slice/map reference model")
 	r.Assume("keys/elements are interchangeable: a history may use key i only after keys 0..i-1 have been used (symmetry reduction in the alphabet)")
 	r.Assume("Cache: wheel and cache goroutines are run to quiescence under the default schedule after every operation; the clock moves in whole 1 s wheel ticks; interleavings inside the cache are not explored here (C07/C12 cover SingleFlight and the wheel)")
-	r.Assume("Cache: hit/miss statistics and the 1-minute stat ticker are not part of the state key (they only feed logging)")
+	r.Assume("Cache: hit/miss statistics and the 1-minute stat ticker are not part of the state key (they only feed logging); in the statistics variant (…/stat) the ticker's phase and whether there is something to report are part of the key, and only the name and the element count of a statistics line are judged (bracketed by the reference size before/after the tick), not whether a line appears nor its hit/miss numbers")
 	r.Assume("Set: managed sets (NewSet) are driven with elements of one kind only, as their contract requires; mixed kinds are explored on NewUnmanagedSet")
 	r.SetExtra("safemap_constants_in_main_binary", fmt.Sprintf("copyThreshold=%d maxDeletion=%d", c, m))
 
